@@ -8,6 +8,15 @@
 //! acknowledged before the handshake started and p_max the commands whose sending had started before
 //! the handshake ended. The served certificate must be the reference model's answer (c17.rs `Model`:
 //! exact over wildcard, longest-lived, ties any, default when nothing covers) in one of these states.
+//!
+//! Requests: a connection is bound to the names the PRESENTED certificate was loaded with (in the
+//! admissible states of the handshake). Every request of the connection's sequence (HTTP/1.1 keep-alive:
+//! `first` / `later_on_keepalive`, HTTP/2: `first` / `later_h2_stream`) is judged on its own: 421 iff the
+//! listener's strict binding is on, an SNI was sent and no such name covers the request's authority (and
+//! then no tenant's backend may have seen the request); otherwise the routed outcome: every frontend
+//! hostname is a tenant with its own backend whose answers name it, so an answer by a backend must come
+//! from the tenant the canonicalised authority names, in a listener state (frontend commands as answered)
+//! between "acknowledged before the request was sent" and "sending began before the answer was seen".
 #![allow(dead_code)]
 use std::collections::{BTreeMap, BTreeSet};
 
@@ -71,6 +80,8 @@ pub fn judge(p: &HsPlan, o: &HsOutcome, fx: &'static [Fx], verbose: bool) -> Ver
     }
     states.push(init.clone());
     alt.push(init);
+    // hostnames with a frontend, per listener, after every command prefix (frontend commands take effect as answered)
+    let mut fronts: Vec<Vec<BTreeSet<String>>> = vec![p.listeners.iter().map(|l| l.fronts.iter().map(|f| canon(f)).collect()).collect()];
     let mut kinds: Vec<String> = Vec::new();
     let mut known = 0usize;
     for (j, c) in p.cmds.iter().enumerate() {
@@ -95,6 +106,13 @@ pub fn judge(p: &HsPlan, o: &HsOutcome, fx: &'static [Fx], verbose: bool) -> Ver
             }
             _ => kinds.push("front".into()),
         }
+        let mut nf = fronts[j].clone();
+        match &c.op {
+            HsOp::AddFront(h) if ok => { nf[l].insert(canon(h)); }
+            HsOp::RemoveFront(h) if ok => { nf[l].remove(&canon(h)); }
+            _ => {}
+        }
+        fronts.push(nf);
         v.result_hash.push(ok as u64);
         states.push(next);
         alt.push(nalt);
@@ -147,7 +165,7 @@ pub fn judge(p: &HsPlan, o: &HsOutcome, fx: &'static [Fx], verbose: bool) -> Ver
         let ctx = |what: &str| -> String {
             format!("client c{i} on L{l} SNI {:?} ({}{}): {} — {what}; admissible command prefixes {p_min}..={p_max} (in flight: {}); model per prefix: {}", c.sni, if c.raw { "raw TLS1.2 hello" } else { "rustls" }, ob.version.as_ref().map(|x| format!(" {x}")).unwrap_or_default(), match &served { None => format!("no certificate (error {:?}, eof {})", ob.error, ob.eof_before_cert), Some(Served::Default) => "served the default certificate".into(), Some(Served::Unknown) => "served an unknown certificate".into(), Some(Served::Cert(f)) => format!("served {}", id_of(f, fx)) }, inflight.iter().map(|j| format!("k{j} {}", op_text(&p.cmds[*j].op, fx))).collect::<Vec<_>>().join(", "), (p_min..=p_max).map(|q| format!("p{q}: loaded={{{}}} best={}", states[q][l].loaded.iter().map(|(f, ld)| format!("{}:{:?}@{}", id_of(f, fx), ld.names, ld.exp)).collect::<Vec<_>>().join(", "), exp[q - p_min].as_ref().map(|s| ids(s, fx)).unwrap_or("default".into()))).collect::<Vec<_>>().join(" / "))
         };
-        if verbose { v.log.push(format!("c{i} start@{} part1@{:?} resumed@{:?} end@{:?} t=[{}us,{}us] done={} status={:?}@{:?} gave_up={} h2_end={:?} :: {}", ob.hs_start, ob.part1, ob.resumed, ob.hs_end, ob.t_start.saturating_sub(1000 * crate::world::SEC) / 1000, ob.t_end.saturating_sub(1000 * crate::world::SEC) / 1000, ob.handshake_done, ob.status, ob.status_seq, ob.gave_up, ob.h2_end, ctx(""))); }
+        if verbose { v.log.push(format!("c{i} start@{} part1@{:?} resumed@{:?} end@{:?} t=[{}us,{}us] done={} requests=[{}] gave_up={} h2_end={:?} :: {}", ob.hs_start, ob.part1, ob.resumed, ob.hs_end, ob.t_start.saturating_sub(1000 * crate::world::SEC) / 1000, ob.t_end.saturating_sub(1000 * crate::world::SEC) / 1000, ob.handshake_done, ob.reqs.iter().enumerate().map(|(k, r)| format!("#{k} sent@{:?}{} status={:?}@{:?} tenant={:?} echo={:?} complete={} end={:?} backends={:?}", r.sent_start, if r.sent { "" } else { "(partly)" }, r.status, r.status_seq, r.tenant, r.echo, r.complete, r.end, o.delivered.get(&sim_id(i, k)))).collect::<Vec<_>>().join("; "), ob.gave_up, ob.h2_end, ctx(""))); }
         let matches_in = |seqs: &Vec<Vec<Model>>, normalise: bool| -> bool {
             (p_min..=p_max).any(|q| {
                 let e = expect_of(&seqs[q][l], normalise);
@@ -213,39 +231,103 @@ pub fn judge(p: &HsPlan, o: &HsOutcome, fx: &'static [Fx], verbose: bool) -> Ver
                 }
             }
         }
-        // ---- strict SNI binding
-        let Some(r) = &c.request else { continue };
+        // ---- strict SNI binding and routing of every request of the connection
+        let Some(r0) = &c.request else { continue };
         if !ob.handshake_done { continue; }
-        if !ob.req_sent { bump(&mut v.probes, "hs_request_not_sent"); continue; }
-        bump(&mut v.probes, if r.h2 { "hs_h2_requests" } else { "hs_h1_requests" });
-        v.result_hash.push(ob.status.unwrap_or(0) as u64);
-        let Some(status) = ob.status else { bump(&mut v.probes, "hs_request_without_status"); continue };
-        bump(&mut v.probes, &format!("hs_status_{status}"));
+        let h2 = r0.h2;
+        let proto = if h2 { "h2" } else { "h1" };
         let strict = p.listeners[l].strict.unwrap_or(true);
-        let rhost = host_of_authority(&r.host);
-        // a certificate command of this listener may have been processed while the connection was set up
-        let st_end = ob.status_seq.unwrap_or(u64::MAX);
-        let r_max = (0..known).filter(|j| o.cmds[*j].sent.map(|s| s < st_end).unwrap_or(false)).count().max(p_min);
-        let racing = (p_min..r_max).any(|j| p.cmds[j].listener.min(nl - 1) == l && matches!(p.cmds[j].op, HsOp::Cert(_)));
-        let racing_txt: String = (p_min..r_max).filter(|j| p.cmds[*j].listener.min(nl - 1) == l && matches!(p.cmds[*j].op, HsOp::Cert(_))).map(|j| format!("k{j} {}", op_text(&p.cmds[j].op, fx))).collect::<Vec<_>>().join(", ");
+        let authorities: Vec<(&str, &str, bool)> = std::iter::once((r0.host.as_str(), r0.kind.as_str(), false)).chain(c.more.iter().map(|m| (m.host.as_str(), m.kind.as_str(), m.concurrent && h2))).collect();
+        if authorities.len() > 1 { bump(&mut v.probes, if h2 { "hs_h2_connections_with_several_streams" } else { "hs_h1_keepalive_connections" }); }
+        // The names a connection is bound to are those of the certificate that was presented on it. A
+        // certificate command of this listener processed while the connection was being set up (known
+        // finding G6: the names are looked up a second time when the handshake completes) is a trigger of
+        // its own; the set-up is over at the latest when the first answer is seen.
+        let first_answer = ob.reqs.iter().filter_map(|r| r.status_seq).min().unwrap_or(u64::MAX);
+        let r_max = (0..known).filter(|j| o.cmds[*j].sent.map(|s| s < first_answer).unwrap_or(false)).count().max(p_min);
+        let racing_cmds: Vec<usize> = (p_min..r_max).filter(|j| p.cmds[*j].listener.min(nl - 1) == l && matches!(p.cmds[*j].op, HsOp::Cert(_))).collect();
+        let racing = !racing_cmds.is_empty();
+        let racing_txt: String = racing_cmds.iter().map(|j| format!("k{j} {}", op_text(&p.cmds[*j].op, fx))).collect::<Vec<_>>().join(", ");
         let rtrig = if racing { "cert_command_during_connection_setup" } else if c.sni_kind != "canonical" { "sni_spelling" } else { "quiescent" };
-        // Some(true): must be rejected, Some(false): must not, None: either
-        let want: Option<bool> = if !strict { Some(false) } else {
-            match (&served, &host) {
-                (_, None) => None,
-                (Some(Served::Cert(f)), Some(_)) => {
-                    let sets: Vec<bool> = (p_min..=p_max).filter_map(|q| states[q][l].loaded.get(f).map(|ld| covered_by(&ld.names, &rhost))).collect();
-                    if sets.is_empty() { None } else if sets.iter().all(|x| *x) { Some(false) } else if sets.iter().all(|x| !*x) { Some(true) } else { None }
+        for (k, (authority, akind, concurrent)) in authorities.iter().enumerate() {
+            let Some(rq) = ob.reqs.get(k) else { break };
+            let position = if k == 0 { "first" } else if h2 { "later_h2_stream" } else { "later_on_keepalive" };
+            let id = sim_id(i, k);
+            let delivered: Vec<(String, String)> = o.delivered.get(&id).cloned().unwrap_or_default();
+            v.result_hash.push(rq.status.unwrap_or(0) as u64);
+            v.result_hash.push(delivered.len() as u64);
+            if rq.sent_start.is_none() { bump(&mut v.probes, if k == 0 { "hs_request_not_sent" } else { "hs_later_request_not_reached" }); continue; }
+            if !rq.sent && rq.status.is_none() && delivered.is_empty() { bump(&mut v.probes, "hs_request_not_sent"); continue; }
+            bump(&mut v.probes, if h2 { "hs_h2_requests" } else { "hs_h1_requests" });
+            bump(&mut v.probes, &format!("hs_request_{position}"));
+            if k > 0 { bump(&mut v.probes, if *concurrent { "hs_h2_stream_opened_with_predecessor" } else if h2 { "hs_h2_stream_opened_after_predecessor" } else { "hs_h1_request_after_complete_answer" }); }
+            if !akind.is_empty() { bump(&mut v.probes, &format!("hs_authority_{akind}")); }
+            let rhost = host_of_authority(authority);
+            // Some(true): must be rejected, Some(false): must not, None: either
+            let want: Option<bool> = if !strict { Some(false) } else {
+                match (&served, &host) {
+                    (_, None) => None,
+                    (Some(Served::Cert(f)), Some(_)) => {
+                        let sets: Vec<bool> = (p_min..=p_max).filter_map(|q| states[q][l].loaded.get(f).map(|ld| covered_by(&ld.names, &rhost))).collect();
+                        if sets.is_empty() { None } else if sets.iter().all(|x| *x) { Some(false) } else if sets.iter().all(|x| !*x) { Some(true) } else { None }
+                    }
+                    (Some(Served::Default), Some(h)) => if rhost == *h || rhost == "lolcatho.st" { None } else { Some(true) },
+                    _ => None,
                 }
-                (Some(Served::Default), Some(h)) => if rhost == *h || rhost == "lolcatho.st" { None } else { Some(true) },
-                _ => None,
+            };
+            bump(&mut v.probes, match want { Some(true) => "hs_strict_expect_421", Some(false) => "hs_strict_expect_not_421", None => "hs_strict_either" });
+            if k > 0 { bump(&mut v.probes, match want { Some(true) => "hs_later_request_expect_421", Some(false) => "hs_later_request_expect_not_421", None => "hs_later_request_either" }); }
+            // position enters the key of later requests only: the keys of first requests are those of the
+            // single-request tier (recorded findings); a racing certificate command is one trigger whatever
+            // the position (G6 binds the whole connection to other names)
+            let key_not_enforced = if racing { rtrig.to_string() } else if k == 0 { format!("{proto}|{rtrig}") } else { format!("{proto}|{position}|{rtrig}") };
+            let key_false_reject = if racing && strict { rtrig.to_string() } else if k == 0 { format!("{proto}|{}|{rtrig}", if strict { "covered" } else { "strict_disabled" }) } else { format!("{proto}|{position}|{}|{rtrig}", if strict { "covered" } else { "strict_disabled" }) };
+            let rctx = |what: String| -> String { ctx(&format!("request {} of {} on the connection ({proto}, {position}{}) for {authority:?}: {what} (certificate commands possibly processed between ClientHello and the first answer: {racing_txt})", k + 1, authorities.len(), if *concurrent { ", stream opened together with its predecessor" } else { "" })) };
+            // a request that must be rejected must not reach any backend, whether or not the client saw an answer
+            if want == Some(true) && !delivered.is_empty() {
+                bump(&mut v.probes, "hs_forbidden_request_reached_a_backend");
+                v.violations.push(Violation::new("strict_sni_not_enforced", key_not_enforced.clone(), rctx(format!("the request was forwarded to the backend of tenant {:?} (answer seen by the client: {:?} from {:?}): the authority is not covered by the certificate presented on this connection and strict SNI binding is on", delivered[0].0, rq.status, rq.tenant))));
+                continue;
             }
-        };
-        bump(&mut v.probes, match want { Some(true) => "hs_strict_expect_421", Some(false) => "hs_strict_expect_not_421", None => "hs_strict_either" });
-        match (want, status == 421) {
-            (Some(true), false) => v.violations.push(Violation::new("strict_sni_not_enforced", if racing { rtrig.to_string() } else { format!("{}|{rtrig}", if r.h2 { "h2" } else { "h1" }) }, ctx(&format!("request for {:?} answered {status}: the authority is not covered by the served certificate and strict SNI binding is on (certificate commands possibly processed between ClientHello and the request: {racing_txt})", r.host)))),
-            (Some(false), true) => v.violations.push(Violation::new("strict_sni_false_reject", if racing && strict { rtrig.to_string() } else { format!("{}|{}|{rtrig}", if r.h2 { "h2" } else { "h1" }, if strict { "covered" } else { "strict_disabled" }) }, ctx(&format!("request for {:?} answered 421 although {} (certificate commands possibly processed between ClientHello and the request: {racing_txt})", r.host, if strict { "the served certificate covers it" } else { "strict SNI binding is disabled on this listener" })))),
-            _ => {}
+            let Some(status) = rq.status else { bump(&mut v.probes, if rq.end.is_some() { "hs_request_stream_reset" } else { "hs_request_without_status" }); continue };
+            bump(&mut v.probes, &format!("hs_status_{status}"));
+            match (want, status == 421) {
+                (Some(true), false) => { v.violations.push(Violation::new("strict_sni_not_enforced", key_not_enforced, rctx(format!("answered {status}{}: the authority is not covered by the certificate presented on this connection and strict SNI binding is on", rq.tenant.as_ref().map(|t| format!(" by the backend of tenant {t:?}")).unwrap_or_default())))); continue; }
+                (Some(false), true) => { v.violations.push(Violation::new("strict_sni_false_reject", key_false_reject, rctx(format!("answered 421 although {}", if strict { "the certificate presented on this connection covers it" } else { "strict SNI binding is disabled on this listener" })))); continue; }
+                _ => {}
+            }
+            if status == 421 { bump(&mut v.probes, &format!("hs_421_{position}")); continue; }
+            // ---- the routed outcome: every frontend hostname is a tenant with its own backend
+            // frontends of the listener after every command prefix the request can have been routed in
+            let sent_at = rq.sent_start.unwrap_or(0);
+            let seen_at = rq.status_seq.unwrap_or(u64::MAX);
+            let f_min = (0..known).filter(|j| o.cmds[*j].acked.map(|a| a < sent_at).unwrap_or(false)).map(|j| j + 1).max().unwrap_or(0);
+            let f_max = (0..p.cmds.len()).filter(|j| o.cmds.get(*j).and_then(|c| c.sent).map(|s| s < seen_at).unwrap_or(false)).count();
+            if f_max > known { bump(&mut v.probes, "hs_routing_inconclusive_unanswered_command"); continue; }
+            let f_max = f_max.max(f_min);
+            let has_front: Vec<bool> = (f_min..=f_max).map(|q| fronts[q][l].contains(&rhost)).collect();
+            if let Some(t) = &rq.tenant {
+                bump(&mut v.probes, "hs_answered_by_a_backend");
+                if k > 0 { bump(&mut v.probes, &format!("hs_{position}_answered_by_a_backend")); }
+                if k > 0 && ob.reqs[..k].iter().any(|x| x.tenant.as_ref().map(|x| x != t).unwrap_or(false)) { bump(&mut v.probes, "hs_connection_served_by_several_tenants"); }
+                if *t != rhost {
+                    v.violations.push(Violation::new("wrong_tenant_answered", format!("{proto}|{position}"), rctx(format!("answered {status} by the backend of tenant {t:?}, the authority names tenant {rhost:?}"))));
+                    continue;
+                }
+                if rq.echo != Some(id) { v.violations.push(Violation::new("answer_of_another_request", format!("{proto}|{position}"), rctx(format!("the answer carries request id {:?}, this request has id {id}", rq.echo)))); continue; }
+                if !has_front.iter().any(|x| *x) { v.violations.push(Violation::new("routed_without_frontend", format!("{proto}|{position}"), rctx(format!("answered {status} by the backend of tenant {t:?} although the listener has no frontend for this hostname in any admissible state (command prefixes {f_min}..={f_max})")))); }
+                continue;
+            }
+            // answered by sozu itself
+            if delivered.is_empty() && has_front.iter().all(|x| !*x) && status == 404 { bump(&mut v.probes, "hs_404_no_frontend"); continue; }
+            if has_front.iter().any(|x| !*x) && status == 404 { bump(&mut v.probes, "hs_404_frontend_command_in_flight"); continue; }
+            // routing by a host spelled in another case / with a trailing dot: the documentation does not say
+            // that the router normalises (the routing check C04 accepts both readings), so "no such frontend" is
+            // an acceptable answer here; what must never happen is an answer by another tenant's backend
+            let spelled = match authority.rsplit_once(':') { Some((h, pt)) if !pt.is_empty() && pt.bytes().all(|b| b.is_ascii_digit()) => h, _ => authority };
+            if status == 404 && delivered.is_empty() && spelled != rhost { bump(&mut v.probes, "hs_404_noncanonical_authority_of_a_routed_host"); continue; }
+            bump(&mut v.probes, &format!("hs_unexpected_{status}_with_frontend"));
+            v.violations.push(Violation::new("routed_request_not_served", format!("{proto}|{position}|{status}"), rctx(format!("answered {status} by the proxy although the listener has a frontend for {rhost:?} in every admissible state (command prefixes {f_min}..={f_max}) and the tenant's backend is up (request seen by backends: {delivered:?})"))));
         }
     }
     v.probes.insert("hs_plans".into(), 1);
